@@ -30,12 +30,32 @@ pub fn classify(text: &str) -> String {
     match r { Ok((o, _)) => o, Err(_) => "panic".to_string() }
 }
 
+/// child mode: classify the text in the file (the parent reads the verdict from stdout; dying from a signal / abort is the verdict "crash")
+pub fn child(path: &str) {
+    let text = std::fs::read_to_string(path).unwrap();
+    println!("{}", classify(&text));
+}
+
+/// classification in a child process: a stack overflow inside the parser or a library it calls aborts the process, which no catch_unwind sees
+fn classify_in_child(text: &str) -> String {
+    let dir = scratch();
+    let p = dir.join("parse-child.txt");
+    std::fs::write(&p, text).unwrap();
+    let exe = std::env::current_exe().unwrap();
+    match std::process::Command::new(exe).arg("parse-child").arg(p.to_str().unwrap()).output() {
+        Ok(o) if o.status.success() => String::from_utf8_lossy(&o.stdout).trim().to_string(),
+        Ok(o) => format!("crash: {:?}", o.status),
+        Err(e) => format!("crash: {}", e)
+    }
+}
+
 pub fn replay(cases: &[J]) -> J {
     let mut rep = Report::new("parsetotal");
     for case in cases {
-        tick(case);
+        tick(&json!({"kind": case["kind"], "len": case["text"].as_array().map(|a| a.len())}));
         let text = text_of(&case["text"]);
-        let o = classify(&text);
+        let o = if case["kind"] == "patnest" { classify_in_child(&text) } else { classify(&text) };
+        let text = if text.chars().count() > 400 { format!("{}... ({} characters)", text.chars().take(200).collect::<String>(), text.chars().count()) } else { text };
         let allowed: Vec<&str> = case["allowed"].as_array().unwrap().iter().map(|a| a.as_str().unwrap()).collect();
         if allowed.contains(&o.as_str()) {
             rep.count(&format!("{}_{}", case["kind"].as_str().unwrap(), o));
